@@ -63,6 +63,18 @@ CLAIMED = {
         "with the real function on a bounded corpus each run - bounded stand-in, not counted as discharged); pyvc/lowbits.py; z3.",
    technique="contract-based deductive verification: loop invariant in BV32 over the real AST (z3), Lean-checked abstraction lemmas",
    ref="5 C14"),
+ "C15": dict(
+   text="The real serializer / deserializer code (PickleSerde, python_memcache_deserializer, CompressedSerde, LegacyWrappingSerde) is "
+        "executed symbolically per exact-type case of the statement (bytes, str, int, bool, None, everything else) and each exit is a VC: "
+        "documented (data, flags) shape, data transmittable (bytes or ASCII text), flags within 16 bits, and deserialize(wire(serialize(v))) "
+        "== v with the same type; for CompressedSerde additionally stored in {d, compress(d)}, FLAG_COMPRESSED set exactly when the "
+        "compressed form was stored, never larger than the uncompressed form, other flag bits unchanged, no compression at or below the "
+        "threshold, never raises for an accepted value - for every threshold, every length and every codec satisfying P4.",
+   note="Assumed (dependencies, cross-checked on samples each run, bounded): P1 pickle round trip for every protocol, P2 utf-8, P3 decimal "
+        "text of ints (below CPython's 4300-digit limit), P4 decompress(compress(b)) == b and TypeError on non-bytes. Trusted: pyvc, z3/cvc5. "
+        "Inner serde of CompressedSerde is the default PickleSerde.",
+   technique="contract-based deductive verification: exhaustive type-case VCs over the real code with codecs as assumed inverse pairs",
+   ref="5 C15"),
 }
 REASON_PENDING = "contracts designed (DESIGN.md section 5) but not yet mechanised; not claimed"
 
